@@ -14,7 +14,8 @@
 
 static int resolve_link(fstree_t *fs, tree_node_t *node)
 {
-	tree_node_t *start = node;
+	tree_node_t *start = node, *slow = node;
+	size_t hops = 0;
 
 	for (;;) {
 		if (!S_ISLNK(node->mode) || !(node->flags & FLAG_LINK_IS_HARD))
@@ -31,6 +32,26 @@ static int resolve_link(fstree_t *fs, tree_node_t *node)
 		}
 
 		if (node == start) {
+			errno = EMLINK;
+			return -1;
+		}
+
+		/*
+		  The chain may also run into a cycle that does not contain
+		  the link we started at. Let a second pointer follow at half
+		  speed; if the two ever meet, we are going in circles.
+		 */
+		if ((++hops % 2) == 0) {
+			if (slow->flags & FLAG_LINK_RESOVED) {
+				slow = slow->data.target_node;
+			} else {
+				slow = fstree_get_node_by_path(fs, fs->root,
+							       slow->data.target,
+							       false, false);
+			}
+		}
+
+		if (node == slow) {
 			errno = EMLINK;
 			return -1;
 		}
